@@ -3,6 +3,7 @@ package goja
 import (
 	"fmt"
 	"go/ast"
+	"hash/maphash"
 	"reflect"
 	"strings"
 
@@ -115,6 +116,24 @@ type objectGoReflect struct {
 	toString, valueOf func() Value
 
 	toJson func() interface{}
+
+	// set when first used as a key: the hash must not change when the wrapper is re-pointed (setReflectValue)
+	hashID    uint64
+	hashIDSet bool
+}
+
+// hashIdentity mirrors equal(): the address for a struct, an array or a slice, else the value.
+func (o *objectGoReflect) hashIdentity(hasher *maphash.Hash) (uint64, bool) {
+	if v := o.fieldsValue; !o.hashIDSet {
+		if isContainer(v.Kind()) {
+			if v.CanAddr() {
+				o.hashID, o.hashIDSet = uint64(v.UnsafeAddr()), true
+			}
+		} else if v.Comparable() {
+			o.hashID, o.hashIDSet = maphash.Comparable(hasher.Seed(), v.Interface()), true
+		}
+	}
+	return o.hashID, o.hashIDSet
 }
 
 func (o *objectGoReflect) init() {
